@@ -22,10 +22,9 @@ import json, os
 from harness import tlc, graph, tlaval
 from harness.tlaval import seq
 from harness.regkit import Walker, env_labels, fast_dump
-from harness import trustkit
 from harness.trustkit import Scenario, KeyPool
 
-ENV = {'NewValidator', 'Validate', 'FetchReply'}
+ENV = {'NewValidator', 'Validate', 'FetchReply', 'Heal'}
 INTERNAL = ['CheckSchema', 'UseAnchor', 'UseCache', 'Fetch', 'VerifySig', 'Verdict']
 ALL_DEVS = ['SharedCache', 'LoopRefetch', 'Ed25519Unsupported']
 INVS = ['TypeOK', 'StackBounded', 'VerdictIffChain', 'InstanceIndependent', 'ConstructorRefuses', 'Terminated', 'NothingBad']
@@ -40,8 +39,8 @@ def tla_set(xs):
     return '{' + ', '.join('"%s"' % x for x in xs) + '}'
 
 
-def consts(insts, maxval, worlds, allowed=(), forced=(), anchors='MCAnchors'):
-    return {'Inst': tla_set(insts), 'MaxVal': maxval, 'Allowed': tla_set(allowed), 'Forced': tla_set(forced),
+def consts(insts, maxval, worlds, allowed=(), forced=(), anchors='MCAnchors', maxheal=0):
+    return {'Inst': tla_set(insts), 'MaxVal': maxval, 'MaxHeal': maxheal, 'Allowed': tla_set(allowed), 'Forced': tla_set(forced),
             'WorldSet': '<- %s' % worlds, 'AnchorChoice': '<- %s' % anchors}
 
 
@@ -86,6 +85,8 @@ class Run:
             sc.validate(args[0], args[1])
         elif act == 'FetchReply':
             sc.fetch_reply(args[0], args[1])
+        elif act == 'Heal':
+            sc.heal(args[0])
         else:
             raise ValueError(act)
 
@@ -258,11 +259,15 @@ def record(world, rng, pool, kt):
             ev.append({'a': 'NewValidator', 'v': v, 'x': a})
             ev[-1]['post'] = post_of(run)
         nval = 0
+        heals = 0
         dead = set()
         for _ in range(80):
             fetching = [v for v in INSTS4 if sc.pending.get(v) and sc.task[v] is not None and v not in dead]
             idle = [v for v in INSTS4 if sc.status[v] == 'ok' and sc.task[v] is None and v not in dead]
             choices = []
+            broken = sorted(n for n, c in world['certs'].items() if c['kl'] != n and sc.serv[n] in ('nack', 'timeout', 'absent'))
+            if broken and heals < 3 and not dead and all(sc.task[v] is None for v in INSTS4) and rng.random() < 0.15:
+                choices += ['Heal']
             if idle and nval < 10:
                 choices += ['Validate'] * 2
             if fetching:
@@ -270,7 +275,12 @@ def record(world, rng, pool, kt):
             if not choices:
                 break
             a = rng.choice(choices)
-            if a == 'Validate':
+            if a == 'Heal':
+                n = rng.choice(broken)
+                run.apply('Heal', [n])
+                heals += 1
+                ev.append({'a': 'Heal', 'x': n})
+            elif a == 'Validate':
                 v = rng.choice(idle)
                 p = 'P%d' % rng.randint(1, 10)
                 run.apply('Validate', [v, p])
@@ -278,16 +288,10 @@ def record(world, rng, pool, kt):
                 ev.append({'a': 'Validate', 'v': v, 'p': p})
             else:
                 v = rng.choice(fetching)
-                name, _, _, _ = trustkit.enc.parse_interest(sc.pending[v][0])
-                n = sc.mat.abstract.get(trustkit.enc.Name.to_bytes(name))
-                kind = world['certs'][n]['serv'] if n in world['certs'] else 'absent'
+                kind = sc.serv_of(v)
                 if kind in ('timeout', 'absent'):
                     # bound of the spec: the lifetime passes only when the world answers none of the waiting instances
-                    def kind_of(u):
-                        nm, _, _, _ = trustkit.enc.parse_interest(sc.pending[u][0])
-                        x = sc.mat.abstract.get(trustkit.enc.Name.to_bytes(nm))
-                        return world['certs'][x]['serv'] if x in world['certs'] else 'absent'
-                    if any(kind_of(u) not in ('timeout', 'absent') for u in fetching):
+                    if any(sc.serv_of(u) not in ('timeout', 'absent') for u in fetching):
                         continue
                 run.apply('FetchReply', [v, kind])
                 ev.append({'a': 'FetchReply', 'v': v, 'kind': kind})
@@ -312,7 +316,7 @@ def judge(ctx, recs, tag, forced):
         for r in recs:
             f.write(json.dumps(r) + '\n')
     cfgp = os.path.join(tlc.BUILD, 'TrustChainTrace.cfg')
-    tlc.write_cfg(cfgp, spec='TSpec', constants=consts(INSTS4, 10, 'W2', forced[1], forced[0], anchors='AnyAnchor'),
+    tlc.write_cfg(cfgp, spec='TSpec', constants=consts(INSTS4, 10, 'W2', forced[1], forced[0], anchors='AnyAnchor', maxheal=3),
                   invariants=['TypeOK'], constraints=['Mark'], postcondition='Post')
     r, rejected = tlc.validate_traces('TrustChainTrace', cfgp, tf, tag='c14tr')
     ctx.add_tlc('TrustChainTrace (%d traces)' % len(recs), r)
@@ -367,6 +371,9 @@ def stage_a(ctx):
                ('orders, 3 validations', consts(INSTS2, 3, 'WOrd', anchors='MCAnchorsGood'), INVS, [], False, True)]
     else:
         big = [('depth<=4, 3 validations', consts(INSTS2, 3, 'W4'), INVS, [], True, True)]
+    # a certificate that could not be fetched becomes retrievable between validations: no trace of the earlier failure
+    big.append(('healing fetch faults, %d validations' % ctx.pick(2, 3), consts(INSTS2, ctx.pick(2, 3), 'WHeal', anchors='MCAnchorsGood', maxheal=1),
+                INVS, [], True, True))
     # termination (liveness) on a smaller configuration
     big.append(('liveness depth<=%d, 2 validations' % ctx.pick(2, 3), consts(INSTS2, 2, ctx.pick('W2', 'W3'), anchors='MCAnchorsGood'),
                 ['TypeOK'], ['Terminates'], False, True))
@@ -389,13 +396,15 @@ def stage_a(ctx):
             ctx.violation('C14/spec/%s' % r.violated, 'TLC: %s violated in TrustChain (%s, correct design)' % (r.violated, name),
                           {'trace': r.errtrace})
         if cov:
-            for a in INTERNAL + sorted(ENV):
+            # Heal is enabled only in the healing configuration (MaxHeal > 0); every other action must occur in each
+            for a in (['Heal'] if name.startswith('healing') else INTERNAL + sorted(ENV - {'Heal'})):
                 if r.ok and r.coverage.get(a, (0, 0))[1] == 0:
                     raise tlc.MachineryError('vacuous: action %s never taken' % a)
     small = []
-    for wname in ('W_AcceptDeep', 'W_CacheHit', 'W_Refused', 'W_RejectOtherAnchor', 'W_TwoInFlight'):
+    for wname in ('W_AcceptDeep', 'W_CacheHit', 'W_Refused', 'W_RejectOtherAnchor', 'W_TwoInFlight', 'W_HealedAccept'):
         wp = os.path.join(tlc.BUILD, 'TrustChain_w_%s.cfg' % wname)
-        tlc.write_cfg(wp, constants=consts(INSTS2, 2, 'W3'), invariants=[wname])
+        tlc.write_cfg(wp, constants=consts(INSTS2, 2, 'W3') if wname != 'W_HealedAccept' else
+                      consts(INSTS2, 2, 'WHeal', anchors='MCAnchorsGood', maxheal=1), invariants=[wname])
         small.append(('witness', wname, wp))
     for d, worlds in (('SharedCache', 'WClean'), ('LoopRefetch', 'WLoop'), ('Ed25519Unsupported', 'WEd')):
         dp = os.path.join(tlc.BUILD, 'TrustChain_d_%s.cfg' % d)
@@ -450,10 +459,13 @@ def run(ctx):
         kts = ['ec'] * 9 + ['rsa'] if ctx.quick else ['ec'] * 5 + ['rsa']
         # every world (depth, deviation, link), one validation at a time, both instances, good and bad anchors
         stage_b(ctx, 'main', consts(INSTS2, ctx.pick(1, 2), ctx.pick('W3', 'W4'), unk, has), pool, cache, kts,
-                max_paths=ctx.pick(350, 8000))
+                max_paths=ctx.pick(250, 8000))
         # orders / interleavings of up to 3 validations by two instances on a few worlds
         stage_b(ctx, 'orders', consts(INSTS2, ctx.pick(2, 3), 'WOrd', unk, has, anchors='MCAnchorsGood'), pool, cache, ['ec'],
-                max_paths=ctx.pick(200, 5000))
+                max_paths=ctx.pick(150, 5000))
+        # fetch fault, Heal, then the same / another packet of the chain again, on the same and on the other instance
+        stage_b(ctx, 'heal', consts(INSTS2, ctx.pick(2, 3), 'WHeal', unk, has, anchors='MCAnchorsGood', maxheal=1), pool, cache, ['ec'],
+                max_paths=ctx.pick(150, 4000))
         stage_b(ctx, 'ed25519', consts(INSTS2, 2, 'WEd', unk, has, anchors='MCAnchorsGood'), pool, cache, ['ed'],
                 max_paths=ctx.pick(60, 400))
         ctx.note('stage B wall %.0fs (incl. learning)' % (time.time() - t1))
